@@ -79,6 +79,13 @@ class Sched:
             self.pct_changes = tuple(sorted(self.rng.randrange(1, horizon) for _ in range(d)))
         self.countdown = self._gap()
         self._in_yield = False
+        # novelty-biased stalls: the first time a thread role reaches a line of the traced files in this run it may
+        # lose the CPU for a short virtual duration (rarely executed lines = error / abort / clean-up paths get
+        # pre-empted much more often than under uniform gaps, and pollers get to run inside the window)
+        self.novel_p = float(self.strategy.get("novel", 0.0))
+        self.novel_seen = set()
+        self.novel_sleep = bool(self.strategy.get("novel_sleep", True))     # False: yield only (checks whose oracle bounds simulated time)
+        self.stalls = 0
 
     # -- choices ---------------------------------------------------------------
     def choose(self, n, tag="", gen=None):
@@ -321,6 +328,19 @@ class Sched:
         return None
 
     def _ltrace(self, frame, event, arg):
+        if self.novel_p and event == "line":
+            key = (frame.f_code, frame.f_lineno)
+            if key not in self.novel_seen:
+                self.novel_seen.add(key)
+                p_ = self.novel_p
+                k = self.choose(4, "novel", lambda r: 0 if r.random() >= p_ else r.randrange(1, 4))
+                if k:
+                    self.stalls += 1
+                    self.ev("stall", (self.me().name if self.me() else "?"), (os.path.basename(frame.f_code.co_filename), frame.f_lineno))
+                    if k == 1 or not self.novel_sleep:
+                        self.yp("pre", (os.path.basename(frame.f_code.co_filename), frame.f_lineno))
+                    else:
+                        self.sleep((0.011, 0.06)[k - 2])
         if event == "line" or event == "opcode":
             self.countdown -= 1
             if self.countdown <= 0:
@@ -619,6 +639,9 @@ STRATEGIES = [
     {"kind": "pct", "depth": 1, "gap": 0, "horizon": 1500},
     {"kind": "pct", "depth": 2, "gap": 3, "horizon": 3000},
     {"kind": "pct", "depth": 3, "gap": 4, "horizon": 6000, "p_jump": 0.03},
+    {"kind": "random", "p_stay": 0.8, "gap": 2, "novel": 0.25},
+    {"kind": "random", "p_stay": 0.6, "gap": 3, "novel": 0.1},
+    {"kind": "random", "p_stay": 0.9, "gap": 1, "novel": 0.5},
 ]
 
 
